@@ -247,8 +247,13 @@ pub fn run(args: &[String]) {
             classes.insert(etag, class);
             let pad = pad_for(etag, class, max);
             let mut all = std::mem::take(&mut senders);
+            // when the second thread starts to act (taken by that thread itself: comparing with a clock started on this
+            // thread after the spawn raised a false alarm under load — the spawn-to-clock gap can exceed the margin)
+            let acted_at = std::sync::Arc::new(std::sync::Mutex::new(None::<Instant>));
+            let acted_at2 = acted_at.clone();
             let h = std::thread::spawn(move || {
                 std::thread::sleep(delay);
+                *acted_at2.lock().unwrap() = Some(Instant::now());
                 match kind {
                     2 => drop(all.drain(..).collect::<Vec<_>>()),
                     _ => {
@@ -265,6 +270,7 @@ pub fn run(args: &[String]) {
                 _ => ("try_recv_timeout(3s)", rx.try_recv_timeout(Duration::from_secs(3))),
             };
             let el = t0.elapsed();
+            let returned_at = Instant::now();
             let txt = res_text(&r, &classes, max, &mut case);
             let want = if kind == 2 { "disc".to_string() } else { format!("msg:{}", etag) };
             if txt != want {
@@ -273,8 +279,12 @@ pub fn run(args: &[String]) {
                     what, txt, el, want
                 ));
             }
-            if el < Duration::from_millis(25) {
-                case.fail(format!("{} returned {} after {:?}, before the second thread acted (30 ms)", what, txt, el));
+            let early = match *acted_at.lock().unwrap() {
+                Some(t) => returned_at < t,
+                None => true,
+            };
+            if early {
+                case.fail(format!("{} returned {} after {:?}, before the second thread acted", what, txt, el));
             }
             if el > Duration::from_millis(2500) {
                 case.fail(format!("{} returned only after {:?} although the event happened at 30 ms", what, el));
